@@ -182,3 +182,13 @@ def pipeline_variants(ctx):
     for m in mism[:3]:
         print("GROWTH-MISMATCH module=PipelineVariants %s" % m)
     return mism
+
+
+def knees2(ctx):
+    """Knees2.tla: the iterated best-candidate selection of zmethod.knees2 (binding M only: the public function takes no
+    candidate set, so there is nothing to replay without re-deriving the outlier thresholds)."""
+    r = ctx.mc("Knees2", "MC_Knees2", need_actions=("Step",))
+    ctx.extra.setdefault("growth", {})["Knees2"] = {
+        "distinct_states": r.distinct,
+        "what": "zmethod.knees2 candidate-selection loop over arbitrary neighbourhood relations (N=4 positions): the candidate set "
+                "only shrinks, terminates within N+1 rounds, result is a fixpoint of the round; model checking only"}
